@@ -21,8 +21,11 @@ import json
 import hostlib as H
 import vlib
 
-THEOREMS = ["C07_history_independent", "C07_history_independent_total", "C07_queries", "C07_raw_api_refuted"]
+THEOREMS = ["C07_history_independent", "C07_history_independent_total", "C07_queries", "C07_raw_api_refuted", "C07_model_is_source"]
 TRUSTED = [
+    "tools/translate/t_filesystem.py (parser + operation table: renders the CURRENT file_system.rs / analysis.rs / vfs.rs into coq/gen/GenFileSystem.v) "
+    "and the contracts of coq/model/FsOps.v (HashMap / Vec / VecDeque / loops / salsa inputs / env / disk / trait FileSystem); "
+    "list_includes is tied by shape only (its meaning over the item abstraction is FsOps.ast_list_includes)",
     "Coq 8.16.1 kernel (vm_compute only inside Examples and the raw-API counterexample)",
     "salsa 0.16 returns for a derived query what the query function returns on the current inputs, and the query functions "
     "(parse, line_index, index, handlers) read file_content / resolved_include_map only for files of the source root and are invariant "
@@ -226,7 +229,7 @@ def check(ctx, bindir, exe, cases):
 
 def run(ctx):
     bindir = vlib.build_harness(False, bins=["hostdrive"])
-    fails = vlib.proof_step(ctx, "TG.Props.C07", THEOREMS, ["props/C07.vo"], TRUSTED, translators=[])
+    fails = vlib.proof_step(ctx, "TG.Props.C07", THEOREMS, ["props/C07.vo"], TRUSTED, translators=["t_filesystem"])
     exe = vlib.build_model("host")
     H.calibrate(bindir)
     cases, nsmall, nrand, L = gen_cases(ctx)
